@@ -104,6 +104,7 @@ _CRASH = {
     "C15": "the same evaluation (same evaluator, same graph object) was abandoned at an arbitrary source line first",
     "C16": "a count was abandoned at an arbitrary source line with an empty memo, then every count of that size judged again",
     "C17": "queries on the shared object were abandoned at an arbitrary source line before the judged query",
+    "C18": "a percolation of the same graph object was abandoned at an arbitrary line (also inside networkx) first; the input must be as it was",
     "C20": "calls that raise (removal of an absent element, insertion of an unhashable tuple) are model actions that must leave the structure as it was; draw support is enumerated right after them",
 }
 for _pid, _t in _CRASH.items():
